@@ -69,6 +69,15 @@ pub async fn run_history(
         }
         layout = crate::broker::Layout { ordered: false, hosts };
     }
+    // "no spare" histories (C06): every proxy is in the cluster, a scale-in is running, and several
+    // members fail one after the other - failovers that cannot find a replacement
+    let no_spare = property == "C06" && !cfg.ordered && rng.chance(1, 4);
+    if no_spare {
+        let per_host = rng.urange(2, 4);
+        let hn = rng.urange(2, 3);
+        layout = crate::broker::Layout { ordered: false, hosts: (0..hn).map(|h| (crate::broker::host_name(h), per_host)).collect() };
+    }
+    let mut ns_stage = if no_spare { 0 } else { 99 };
     let mut hp_stage = if host_pressure { 0 } else { 99 };
     let mut driver = Driver::new(cfg.clone());
     if property == "C18" {
@@ -98,6 +107,37 @@ pub async fn run_history(
     for _ in 0..total {
         let op = match pending.pop() {
             Some(op) => op,
+            None if ns_stage < 99 => {
+                ns_stage += 1;
+                let total: usize = layout.hosts.iter().map(|h| h.1).sum();
+                match ns_stage {
+                    1 => Op::AddCluster("ns".to_string(), (total / 2) * 4),
+                    2 => Op::MigrateSlotsToScaleDown("ns".to_string(), ((total / 2) * 4 / 2).max(4) / 4 * 4),
+                    3..=6 => {
+                        // a member whose chunk partner is still healthy
+                        let cands: Vec<String> = pre
+                            .store
+                            .clusters
+                            .get("ns")
+                            .map(|c| {
+                                c.chunks
+                                    .iter()
+                                    .filter(|ch| ch.proxy_addresses.iter().all(|p| !pre.store.failed_proxies.contains(p) && !pre.store.failures.contains_key(p)))
+                                    .flat_map(|ch| ch.proxy_addresses.iter().cloned())
+                                    .collect()
+                            })
+                            .unwrap_or_default();
+                        match rng.pick_opt(&cands) {
+                            Some(a) => Op::ReplaceFailedProxy(a.clone()),
+                            None => gen_op(&mut rng, &pre, &mut ctx),
+                        }
+                    }
+                    _ => {
+                        ns_stage = 99;
+                        gen_op(&mut rng, &pre, &mut ctx)
+                    }
+                }
+            }
             None if hp_stage < 99 => {
                 hp_stage += 1;
                 let small_host = crate::broker::host_name(0);
@@ -137,6 +177,9 @@ pub async fn run_history(
         };
         if host_pressure && hp_stage == 1 {
             rep.count("host_pressure_histories", 1);
+        }
+        if no_spare && ns_stage == 1 {
+            rep.count("no_spare_histories", 1);
         }
         h.t0 = now_s();
         let res = driver.apply(&op).await;
